@@ -60,6 +60,122 @@ def _none_defs(b, defs, l, seen):
     return out
 
 
+class Nullable:
+    """may an Option-typed local be None when a block is reached?  Definitions: `None` literal, `.ok()` / `.take()` / `.pop()` .. results
+    (may be None), `Some(..)` (is not), `x.as_ref().map(..)` and copies (as their source at the point of definition), parameters and
+    unknown calls (not judged).  A definition counts only if a path from it to the use exists that neither passes another whole
+    definition of the variable nor an edge that proves it Some (`is_none()` false / `is_some()` true / discriminant Some)."""
+    MAYBE = ("ok", "take", "pop", "last", "first", "get", "next", "err", "find", "position", "checked_sub", "checked_div")
+    SAME = ("map", "as_ref", "as_mut", "cloned", "copied", "as_deref", "clone", "and_then", "filter", "inspect", "zip")
+
+    def __init__(self, b):
+        self.b = b
+        self.defs = Defs(b)
+        self.succs = b.succs()
+
+    def _root(self, op):
+        """named Option local behind a receiver operand (through borrows / copies)"""
+        l = op["place"]["l"] if op.get("k") in ("copy", "move") else None
+        for _ in range(8):
+            if l is None:
+                return None
+            if self.b.lname(l) or 1 <= l <= self.b["arg_count"]:
+                return l
+            ds = self.defs.of(l)
+            if len(ds) != 1 or ds[0][0] != "stmt":
+                return l if ds else None
+            rv = ds[0][4]
+            if rv["k"] == "ref":
+                l = rv["place"]["l"]
+            elif rv["k"] in ("use", "cast") and rv["op"].get("k") in ("copy", "move"):
+                l = rv["op"]["place"]["l"]
+            else:
+                return l
+        return l
+
+    def _proving_edges(self, l):
+        """(block, successor) edges on which local l is known to be Some"""
+        out = set()
+        for bi, blk in enumerate(self.b.blocks):
+            t = blk["term"]
+            if t["k"] != "switch" or t["op"].get("k") not in ("copy", "move"):
+                continue
+            ds = self.defs.of(t["op"]["place"]["l"])
+            if len(ds) != 1:
+                continue
+            d = ds[0]
+            listed = {v for v, _ in t["targets"]}
+            if d[0] == "call" and str(callee(d[2])[2]) in ("is_none", "is_some") and d[2]["args"] and self._root(d[2]["args"][0]) == l:
+                want = "0" if str(callee(d[2])[2]) == "is_none" else "1"
+                for v, tgt in t["targets"]:
+                    if v == want:
+                        out.add((bi, tgt))
+                if want not in listed and len(listed) == 1:
+                    out.add((bi, t["otherwise"]))
+            elif d[0] == "stmt" and d[4]["k"] == "discr" and self._root({"k": "copy", "place": d[4]["place"]}) == l:
+                for v, tgt in t["targets"]:
+                    if v == "1":
+                        out.add((bi, tgt))
+                if listed == {"0"}:
+                    out.add((bi, t["otherwise"]))
+        return out
+
+    def _reaches(self, src, dst, kill_blocks, proving):
+        """is there a path from the end of block src to the start of block dst avoiding kill blocks and proving edges?"""
+        work, seen = [src], set()
+        while work:
+            x = work.pop()
+            for y in self.succs[x]:
+                if (x, y) in proving:
+                    continue
+                if y == dst:
+                    return True
+                if y in seen or y in kill_blocks:
+                    continue
+                seen.add(y)
+                work.append(y)
+        return False
+
+    def at(self, l, use_bi, depth=0):
+        """None, or a description of a maybe-None definition of local l that reaches block use_bi"""
+        if depth > 6:
+            return None
+        ds = self.defs.whole(l)
+        proving = self._proving_edges(l)
+        for d in ds:
+            others = {x[1] for x in ds if x is not d}
+            if d[1] != use_bi or True:
+                if d[1] == use_bi:
+                    # defined in the block of the use: reaches it directly (straight-line) unless it is the use's own destination
+                    reaches = True if d[0] == "stmt" else False
+                    reaches = reaches or self._reaches(d[1], use_bi, others, proving)
+                else:
+                    reaches = self._reaches(d[1], use_bi, others - {use_bi}, proving)
+                if not reaches:
+                    continue
+            if d[0] == "stmt":
+                rv = d[4]
+                span = self.b.blocks[d[1]]["stmts"][d[2]].get("span") or self.b.file_line()
+                if rv["k"] == "agg" and rv["kind"].get("variant") == "None":
+                    return "`None` assigned at %s" % span
+                if rv["k"] in ("use", "cast") and rv["op"].get("k") in ("copy", "move") and not rv["op"]["place"]["p"]:
+                    w = self.at(rv["op"]["place"]["l"], d[1], depth + 1)
+                    if w:
+                        return w
+                continue
+            t = d[2]
+            nm = str(callee(t)[2])
+            if nm in self.MAYBE:
+                return "the result of `.%s()` at %s" % (nm, t["span"])
+            if nm in self.SAME and t["args"]:
+                root = self._root(t["args"][0])
+                if root is not None and root != l and not (1 <= root <= self.b["arg_count"]):
+                    w = self.at(root, d[1], depth + 1)
+                    if w:
+                        return w
+        return None
+
+
 def run(F):
     r = RuleResult("R63", "REQUIRED-GUESS: TP-generic phase-equilibrium code never passes a literal None where a pressure specification needs an initial temperature")
     req = _requires(F)
@@ -97,6 +213,11 @@ def run(F):
                 else:
                     defs = defs or Defs(b)
                     nones = _none_defs(b, defs, a["place"]["l"], set()) if not a["place"]["p"] else []
+                    if not nones and not a["place"]["p"]:
+                        # .. or a value that may be None here (`vle.as_ref().map(..)` with `vle = solve(..).ok()` from the last iteration)
+                        w = Nullable(b).at(a["place"]["l"], bi)
+                        if w:
+                            nones = [w]
                 if nones:
                     r.inst(iid, t["span"], "violation")
                     r.fail(iid, t["span"],
@@ -105,6 +226,42 @@ def run(F):
                            "all later points of the diagram with it" % (fn, nones[0], nm, req[0][1]))
                 else:
                     r.inst(iid, t["span"], "ok")
+    # (3) concrete pressure specifications: a call whose specification argument has the type of the implementation that requires an
+    #     initial value, and whose initial-value argument may be `None` when the call is reached: some definition of the Option it is
+    #     computed from (`vle.as_ref().map(|vle| vle.vapor().temperature)` with `vle = solve(..).ok()` in the previous iteration) can be
+    #     None and reaches the call without passing a test that proves it Some
+    spec_ty, init_ty = req[0][0].lty(2)["s"], req[0][0].lty(3)["s"]
+    n3 = 0
+    for b in F.bodies:
+        if not b.path.startswith(("feos_core::", "feos::", "feos_dft::")) or "::tests::" in b.path or "::python::" in b.path:
+            continue
+        if b.path == req[0][0].path:
+            continue
+        nul = None
+        for bi, t in b.calls():
+            if str(callee(t)[2]) not in ("bubble_point", "dew_point", "bubble_dew_point"):
+                continue
+            tys = [(b.opty(a) or {}).get("s", "") if a.get("k") in ("copy", "move", "const") else "" for a in t["args"]]
+            if spec_ty not in tys or init_ty not in tys:
+                continue
+            a = t["args"][tys.index(init_ty)]
+            n3 += 1
+            fn = b.path.split("::{closure")[0].split("::")[-1]
+            iid = "requiredguess|pressure|%s>%s" % (fn, callee(t)[2])
+            why = None
+            if a.get("k") == "const":
+                why = "the literal None"
+            elif a.get("k") in ("copy", "move") and not a["place"]["p"]:
+                nul = nul or Nullable(b)
+                why = nul.at(a["place"]["l"], bi)
+            if why:
+                r.inst(iid, t["span"], "violation")
+                r.fail(iid, t["span"],
+                       "%s calls %s at given pressure with an initial temperature that can be None here (%s): the solver requires one (%s) and "
+                       "panics — one point that does not converge takes the rest of the calculation with it" % (fn, callee(t)[2], why, req[0][1]))
+            else:
+                r.inst(iid, t["span"], "ok")
+    r.floor("bubble / dew point calls at given pressure with an initial temperature", n3, 1)
     r.floor("TP-generic hand-ons of an initial temperature / pressure", n, 5)
     r.exhaustive = True
     return [r]
